@@ -17,6 +17,7 @@ CONSTANTS
  MaxReserve = 0
  PinAlloc = FALSE
  MinCap = 0
+ MaxFault = 0
 INIT TraceInit
 NEXT TraceNext
 POSTCONDITION Consumed
